@@ -37,6 +37,20 @@ WS = ["  padded both  ", " nbsp lead", "ideographic　", "", "   "]
 RAW_ANCHOR = ["<a href=\"http://y\">`{n}`</a>", "<a href=\"http://y\">see `{n}` here</a>", "<a name=\"q\">`{n}`"]
 FENCE_BAL = [["```", "code { here", "```"], ["```rust", "let `{n}` = 1; // x", "```"], ["~~~", "<b id=\"x\"> {", "~~~"],
              ["<div>", "inside *html* `{n}`", "</div>"], ["<pre>", "pre `{n}`", "</pre>"]]
+# links of every pulldown-cmark LinkType whose text contains a code span naming a documented item: reference
+# (full), collapsed, shortcut — each with its `[label]: url` definition after a blank line (a definition cannot
+# interrupt a paragraph) — unknown-reference forms (no definition: stay text), autolink and email autolink
+# (plain text only, next to a code span)
+REF_LINKS = [["[`{n}`][lbl-{n}]", "", "[lbl-{n}]: http://example.com/full/{n}"],
+             ["see [the `{n}` type and `{n2}`][Some Label] here", "", "[some label]: <http://example.com/ci> 'title'"],
+             ["[`{n}`][]", "", "[`{n}`]: http://example.com/collapsed/{n}"],
+             ["[`{n}`] and again [`{n}`]", "", "[`{n}`]: http://example.com/shortcut/{n}"],
+             ["[a `{n}` b][]", "", "[a `{n}` b]: http://example.com/collapsed2"],
+             ["*[`{n}`][e-{n}]* **[x `{n2}`][e-{n}]**", "", "[e-{n}]: http://example.com/em"],
+             ["![`{n}`][img-{n}]", "", "[img-{n}]: http://example.com/{n}.png"],
+             ["[`{n}`][undefined-label] [`{n2}`][] [`{n}`]"],
+             ["<http://example.com/auto/{n}> `{n}` <mailto:dev@example.com> <someone@example.com> `{n2}`"],
+             ["[`{n}`](<http://example.com/angle> \"t\") [`{n2}`](http://example.com/plain)"]]
 BLOCK_OPEN = ["```", "~~~~", "<!-- never closed", "<pre>", "<script>", "<div>"]
 
 
@@ -58,6 +72,9 @@ def make_docgen(rng, names, stats, rates):
         out = [line() for _ in range(rng.choice([1, 1, 2, 3, 5]))]
         if rng.random() < 0.08:
             out += [l.replace("{n}", rng.choice(names)) for l in rng.choice(FENCE_BAL)]; stats["doc:balanced-block"] += 1
+        if rng.random() < 0.10:
+            n, n2 = rng.choice(names), rng.choice(names)
+            out += [l.replace("{n2}", n2).replace("{n}", n) for l in rng.choice(REF_LINKS)]; stats["doc:link-kinds-group"] += 1
         if rng.random() < rates["rawanchor"]:
             out.append(rng.choice(RAW_ANCHOR).replace("{n}", rng.choice(names))); stats["doc:raw-anchor"] += 1
         if rng.random() < rates["blockopen"]:
@@ -135,6 +152,8 @@ def ev_stats(evs, model_ev, stats):
     n_out = sum(1 for t in out if t.startswith("SL:"))
     stats["ev:events"] += len(toks)
     stats["ev:links-in-md"] += n_in
+    for t in toks:
+        if t.startswith("SL:"): stats["ev:linktype:" + t.split(":")[1]] += 1
     stats["ev:links-inserted"] += n_out - n_in
     stats["ev:code-spans"] += sum(1 for t in toks if t.startswith("C:"))
     stats["ev:raw-html"] += sum(1 for t in toks if t.startswith("H:") or t.startswith("IH:"))
